@@ -98,8 +98,11 @@ type scen struct {
 
 	parentCancel func()
 	closer       func() error
-	closeCalled  int32
+	closeCalled  bool // under mu
+	cancelCalled bool // under mu
+	ending       bool // under mu: the scenario is over, late acts are dropped
 	stopCalled   int32
+	closeFailed  int32
 	closeDone    chan struct{}
 	dead         chan struct{}
 	deadOnce     sync.Once
@@ -126,12 +129,24 @@ func (s *scen) isDead() bool {
 
 func (s *scen) kill() { s.deadOnce.Do(func() { close(s.dead) }) }
 
+func (s *scen) closeWasCalled() bool {
+	s.mu.Lock()
+	defer s.mu.Unlock()
+	return s.closeCalled
+}
+
 func (s *scen) doClose() {
-	if !atomic.CompareAndSwapInt32(&s.closeCalled, 0, 1) {
+	s.mu.Lock()
+	if s.ending || s.closeCalled {
+		s.mu.Unlock()
 		return
 	}
+	s.closeCalled = true
 	atomic.StoreInt32(&s.stopCalled, 1)
-	s.log(Ev{T: "closecall"})
+	if !s.frozen {
+		s.trace = append(s.trace, Ev{T: "closecall"})
+	}
+	s.mu.Unlock()
 	go func() {
 		defer func() {
 			if r := recover(); r != nil {
@@ -140,6 +155,9 @@ func (s *scen) doClose() {
 			close(s.closeDone)
 		}()
 		err := s.closer()
+		if err != nil {
+			atomic.StoreInt32(&s.closeFailed, 1)
+		}
 		s.log(Ev{T: "closeret", OK: err == nil})
 	}()
 }
@@ -149,7 +167,7 @@ func (s *scen) doClose() {
 func (s *scen) act(a Act, parked bool) {
 	switch a.What {
 	case "close":
-		if atomic.LoadInt32(&s.closeCalled) != 0 {
+		if s.closeWasCalled() {
 			return
 		}
 		s.doClose()
@@ -177,8 +195,17 @@ func (s *scen) act(a Act, parked bool) {
 			}
 		}
 	case "cancel":
+		s.mu.Lock()
+		if s.ending || s.cancelCalled {
+			s.mu.Unlock()
+			return
+		}
+		s.cancelCalled = true
 		atomic.StoreInt32(&s.stopCalled, 1)
-		s.log(Ev{T: "cancelcall"})
+		if !s.frozen {
+			s.trace = append(s.trace, Ev{T: "cancelcall"})
+		}
+		s.mu.Unlock()
 		s.parentCancel()
 	}
 	if a.Delay > 0 && parked {
@@ -307,6 +334,15 @@ func (m *impl) Recv() error {
 		}
 		return io.EOF
 	case "block":
+		if atomic.LoadInt32(&m.s.stopCalled) == 0 {
+			// nothing has stopped the client so far and nothing arrives any more:
+			// close it now (Close while the stream is idle)
+			m.s.act(Act{What: "close"}, false)
+		} else if !m.s.c.reconnect() && atomic.LoadInt32(&m.s.closeFailed) != 0 {
+			// a bare client whose Close came too early (ErrClientInit): only the
+			// caller's context can stop it now
+			m.s.act(Act{What: "cancel"}, false)
+		}
 		select {
 		case <-m.ctx.Done():
 		case <-m.closed:
@@ -477,17 +513,11 @@ func runCase(c Case) []Ev {
 			s.act(a, false)
 		}
 	}
-	if atomic.LoadInt32(&s.closeCalled) != 0 {
-		select {
-		case <-s.closeDone:
-		case <-timer.C:
-			return hang()
-		}
-	}
-	// a late race/sleep act may still be on its way; give it a moment so that a
-	// call event is never left without its return
-	time.Sleep(200 * time.Microsecond)
-	if atomic.LoadInt32(&s.closeCalled) != 0 {
+	// a race/sleep act that has not started yet is dropped; one that has is awaited
+	s.mu.Lock()
+	s.ending = true
+	s.mu.Unlock()
+	if s.closeWasCalled() {
 		select {
 		case <-s.closeDone:
 		case <-timer.C:
@@ -588,6 +618,7 @@ func caseTerm(c Case) string {
 // generators
 
 func msg() Item   { return Item{K: "msg", N: 1} }
+func msg3() Item  { return Item{K: "msg", N: 3} }
 func eof() Item   { return Item{K: "eof"} }
 func stop() Item  { return Item{K: "eof", Stop: true} }
 func ierr() Item  { return Item{K: "err"} }
@@ -603,7 +634,7 @@ func scripts() [][]Attempt {
 	return [][]Attempt{
 		{ok(msg(), block())},
 		{ok(block())},
-		{ok(msg(), msg(), msg(), block())},
+		{ok(msg(), msg3(), msg(), block())},
 		{ok(msg(), eof()), ok(msg(), block())},
 		{ok(msg(), stop()), ok(msg(), ierr()), ok(msg(), msg(), block())},
 		{ok(), ok(msg(), msg()), ok(block())},
@@ -678,7 +709,7 @@ func randScript(r *vh.Rand) []Attempt {
 		var its []Item
 		m := r.Intn(5)
 		for i := 0; i < m; i++ {
-			its = append(its, msg())
+			its = append(its, Item{K: "msg", N: 1 + r.Pick(5, 2, 1)})
 		}
 		switch r.Pick(3, 2, 2, 3, 2) {
 		case 0:
